@@ -136,22 +136,21 @@ def r1_removal_funnel(run, w, rid):
   # dispatch: BulkRemoveRecord -> overrides.get((name, table), doBulkRemoveRecord)(table, rows)
   br = w.fn("useractions.UserActions.BulkRemoveRecord")
   ps = br.fi.params()
-  disp = None
-  for s in ast.walk(br.node):
-    if isinstance(s, ast.Assign) and isinstance(s.value, ast.Call) and \
-        endswith(dotted(s.value.func), "_overrides.get") and len(s.value.args) == 2 and \
-        isinstance(s.targets[0], ast.Name):
-      disp = s
   ok = False
-  if disp is not None:
-    key, default = disp.value.args
-    mvar = disp.targets[0].id
-    calls = {n.id for (n, c, nm) in br.calls() if nm == mvar and
-             [text(a) for a in c.args] == [ps[1], ps[2]] and not c.keywords}
-    ok = isinstance(key, ast.Tuple) and len(key.elts) == 2 and \
-        H.const_value(key.elts[0]) == (True, "BulkRemoveRecord") and text(key.elts[1]) == ps[1] \
-        and text(default) == "self.doBulkRemoveRecord" and bool(calls) and \
-        br.cfg.dominated_by(br.cfg.exit.id, calls)
+  calls = set()
+  shape_ok = True
+  for (n, c, nm) in br.calls():
+    f = H.deref(br, c.func)
+    if isinstance(f, ast.Call) and endswith(br.name(f), "_overrides.get") and len(f.args) == 2:
+      key, default = H.deref(br, f.args[0]), f.args[1]
+      good = isinstance(key, ast.Tuple) and len(key.elts) == 2 and \
+          H.const_value(H.deref(br, key.elts[0])) == (True, "BulkRemoveRecord") and \
+          H.canon(br, key.elts[1]) == ps[1] and H.canon(br, default) == "self.doBulkRemoveRecord" \
+          and [H.canon(br, a) for a in c.args] == [ps[1], ps[2]] and not c.keywords
+      shape_ok = shape_ok and good
+      calls.add(n.id)
+  ok = bool(calls) and shape_ok and br.cfg.dominated_by(br.cfg.exit.id, calls) and \
+      not DefUse(br).rebinders(ps[1]) and not DefUse(br).rebinders(ps[2])
   run.ob(R1, br.qualname, "self._overrides.get(('BulkRemoveRecord', table_id), "
          "self.doBulkRemoveRecord)(table_id, row_ids)", "the user action runs the table's "
          "override, else the funnel, with its own arguments on every normal path", ok, fi=br.fi)
@@ -160,10 +159,11 @@ def r1_removal_funnel(run, w, rid):
     fn = w.fn(q)
     nodes = {n.id for (n, c, nm) in fn.calls() if endswith(nm, callee)}
     others = [c for (n, c) in H.gateway_sites(fn)]
+    # DocModel.remove delegates once per table group (inside its loop); RemoveRecord on every path
+    in_loop = [x for x in nodes if H.loop_heads_around(fn, fn.cfg, fn.cfg.nodes[x].stmt)]
     run.ob(R1, q, "-> %s(...)" % callee, "removal entry point delegates to the BulkRemoveRecord "
            "user action", bool(nodes) and not others and
-           all(isinstance(fn.cfg.nodes[x].stmt, (ast.Return, ast.Expr)) for x in nodes),
-           fi=fn.fi)
+           (bool(in_loop) or fn.cfg.dominated_by(fn.cfg.exit.id, nodes)), fi=fn.fi)
 
 
 # ------------------------------------------------------------------------------------------ R2
@@ -297,12 +297,19 @@ def r3_auto_remove(run, w):
   # DocModel.setAutoRemove: add when true, discard otherwise
   sa = w.fn("docmodel.DocModel.setAutoRemove")
   ps = sa.fi.params()
-  ifs = [s for s in sa.node.body if isinstance(s, ast.If)]
-  ok = len(ifs) == 1 and text(ifs[0].test) == ps[2] and \
-      any(endswith(sa.name(c), "_auto_remove_set.add") and text(c.args[0]) == ps[1]
-          for c in calls_in(ifs[0].body)) and \
-      any(endswith(sa.name(c), "_auto_remove_set.discard", "_auto_remove_set.remove")
-          and text(c.args[0]) == ps[1] for c in calls_in(ifs[0].orelse))
+  adds = {n.id for (n, c, nm) in sa.calls() if endswith(nm, "_auto_remove_set.add") and
+          len(c.args) == 1 and H.canon(sa, c.args[0]) == ps[1]}
+  drops = {n.id for (n, c, nm) in sa.calls()
+           if endswith(nm, "_auto_remove_set.discard", "_auto_remove_set.remove") and
+           len(c.args) == 1 and H.canon(sa, c.args[0]) == ps[1]}
+  verdict = lambda v: (lambda e: v if H.canon(sa, e) == ps[2] else None)
+  scfg = sa.cfg
+  yes_reach = H.reach_assuming(scfg, {scfg.entry.id}, verdict(True))
+  no_reach = H.reach_assuming(scfg, {scfg.entry.id}, verdict(False))
+  ok = bool(adds) and bool(drops) and \
+      scfg.exit.id not in H.reach_assuming(scfg, {scfg.entry.id}, verdict(True), removed=adds) and \
+      scfg.exit.id not in H.reach_assuming(scfg, {scfg.entry.id}, verdict(False), removed=drops) \
+      and not (yes_reach & drops) and not (no_reach & adds) and not DefUse(sa).rebinders(ps[2])
   run.ob(R3, sa.qualname, "if yes: set.add(record) else: set.discard(record)",
          "a verdict marks the record, a later opposite verdict unmarks it", ok, fi=sa.fi)
   # apply_auto_removes
@@ -332,10 +339,18 @@ def r3_auto_remove(run, w):
          fi=ar.fi, node=rn.stmt, nontrivial=False)
   run.ob(R3, ar.qualname, "self.remove(...) on every path", "no path skips the removal",
          cfg.dominated_by(cfg.exit.id, {rn.id}), fi=ar.fi)
+  rd = H.ReachDefs(ar, du)
   rets = [n for n in cfg.nodes if n.kind == "return"]
-  def truth_of_records(e):
+  rec_arg = rc.args[0]
+  rec_defs = rd.reaching(rec_arg.id, rn.id) if isinstance(rec_arg, ast.Name) else None
+  def truth_of_records(e, at):
     """True: the truth of the removed-records list; False: something else; None: unknown."""
     e = H.strip_bool(e)
+    if isinstance(e, ast.Name) and not (rec_defs is not None and e.id == rec_arg.id):
+      ds = rd.reaching(e.id, at)
+      if len(ds) == 1 and H.def_value(cfg, next(iter(ds))) is not None:
+        d = next(iter(ds))
+        return truth_of_records(H.def_value(cfg, d), d)
     if isinstance(e, ast.Compare) and len(e.ops) == 1 and len(e.comparators) == 1 and \
         isinstance(e.left, ast.Call) and dotted(e.left.func) == "len":
       k = H.const_value(e.comparators[0])
@@ -344,12 +359,13 @@ def r3_auto_remove(run, w):
         e = e.left
     if isinstance(e, ast.Call) and dotted(e.func) == "len" and len(e.args) == 1:
       e = e.args[0]
-    if isinstance(e, ast.Name) and text(e) == text(rc.args[0]):
-      return True
+    if isinstance(e, ast.Name) and rec_defs is not None and e.id == rec_arg.id:
+      return rd.reaching(e.id, at) == rec_defs
     if isinstance(e, (ast.Constant, ast.Name, ast.Attribute, ast.IfExp)):
       return False
     return None
-  verdicts = [truth_of_records(r.stmt.value) if r.stmt.value is not None else False for r in rets]
+  verdicts = [truth_of_records(r.stmt.value, r.id) if r.stmt.value is not None else False
+              for r in rets]
   if any(v is None for v in verdicts):
     raise AnalysisError("apply_auto_removes: cannot interpret the returned value")
   ok = bool(rets) and all(verdicts) and cfg.dominated_by(cfg.exit.id, {r.id for r in rets})
@@ -410,40 +426,61 @@ def r4_raw_section(run, w):
     raise AnalysisError("doAddTable has no callers")
   fn = w.fn_of(da)
   cfg = fn.cfg
-  ifs = [x for x in cfg.nodes if x.kind == "if" and text(x.stmt.test) == "raw_section"]
-  ok = False
-  var = None
-  if len(ifs) == 1:
-    for s in ifs[0].stmt.body:
-      if isinstance(s, ast.Assign) and isinstance(s.value, ast.Call) and \
-          fn.name(s.value) == "self.create_plain_view_section" and \
-          isinstance(s.targets[0], ast.Name):
-        cp = w.repo.func("useractions.UserActions.create_plain_view_section")
-        vs = H.arg_of(s.value, cp, "view_sections")
-        ok = vs is not None and isinstance(vs, ast.Attribute) and \
-            fn.type_of(vs.value) == T.DOCMODEL and vs.attr == "view_sections"
-        var = s.targets[0].id
+  du = DefUse(fn)
+  rd = H.ReachDefs(fn, du)
+  flag = "raw_section"
+  if flag not in da.params():
+    raise AnalysisError("doAddTable: parameter raw_section vanished")
+  cp = w.repo.func("useractions.UserActions.create_plain_view_section")
+  creates = []
+  for (nn, c, nm) in fn.calls():
+    if nm == "self.create_plain_view_section":
+      st = nn.stmt
+      var = st.targets[0].id if isinstance(st, ast.Assign) and len(st.targets) == 1 and \
+          isinstance(st.targets[0], ast.Name) and st.value is c else None
+      creates.append((nn, c, var))
+  if len(creates) != 1 or creates[0][2] is None:
+    raise AnalysisError("doAddTable: expected one <var> = self.create_plain_view_section(...)")
+  cn, cc, var = creates[0]
+  vs = H.arg_of(cc, cp, "view_sections")
+  vs = H.expand(fn, vs) if vs is not None else None
+  asked = lambda e: True if isinstance(e, ast.Name) and e.id == flag and \
+      (H.ReachDefs.ENTRY in rd.reaching(flag, cfg.entry.id) or True) else None
+  # when a raw section is asked for, no path avoids creating it ...
+  ok = vs is not None and isinstance(vs, ast.Attribute) and \
+      fn.type_of(vs.value) == T.DOCMODEL and vs.attr == "view_sections" and \
+      cfg.exit.id not in H.reach_assuming(cfg, {cfg.entry.id}, asked, removed={cn.id}) and \
+      all(d == cn.id or d == H.ReachDefs.ENTRY for d in du.rebinders(flag))
   run.ob(R4, fn.qualname, "if raw_section: raw_section = self.create_plain_view_section(..., "
          "self._docmodel.view_sections, ...)", "the raw section is created as a section of no "
          "view for the new table", ok, fi=fn.fi)
   # recorded in rawViewSectionRef whenever it was created
   upd = []
+  ur = w.repo.func("useractions.UserActions.UpdateRecord")
   for (nn, c, nm) in fn.calls():
-    if nm == "self.UpdateRecord" and len(c.args) == 3 and \
-        H.const_value(c.args[0]) == (True, "_grist_Tables") and isinstance(c.args[2], ast.Dict):
-      for k, v in zip(c.args[2].keys, c.args[2].values):
-        if H.const_value(k) == (True, "rawViewSectionRef"):
-          upd.append((nn, c, v))
+    if nm == "self.UpdateRecord":
+      try:
+        a_t, a_v = H.arg_of(c, ur, ur.params()[1]), H.arg_of(c, ur, ur.params()[3])
+      except AnalysisError:
+        continue
+      a_v = H.deref(fn, a_v) if a_v is not None else None
+      if a_t is not None and H.const_value(H.deref(fn, a_t)) == (True, "_grist_Tables") and \
+          isinstance(a_v, ast.Dict):
+        for k, v in zip(a_v.keys, a_v.values):
+          if k is not None and H.const_value(k) == (True, "rawViewSectionRef"):
+            upd.append((nn, c, v))
   ok = False
-  if len(upd) == 1 and var is not None:
+  if len(upd) == 1:
     nn, c, v = upd[0]
-    gs = [s for (s, fld) in H.guards_of(fn.node, nn.stmt) if isinstance(s, ast.If)]
-    val_ok = isinstance(v, ast.IfExp) and text(v.test) == var and text(v.body) == var + ".id" or \
-        text(v) == var + ".id"
-    guard_ok = len(gs) == 1 and (text(gs[0].test) == var or (
-      isinstance(gs[0].test, ast.BoolOp) and isinstance(gs[0].test.op, ast.Or) and
-      var in [text(x) for x in gs[0].test.values]))
-    ok = val_ok and guard_ok
+    is_sec = lambda x: isinstance(x, ast.Name) and x.id == var and \
+        cn.id in rd.reaching(var, nn.id)
+    val_ok = (isinstance(v, ast.IfExp) and is_sec(v.test) and isinstance(v.body, ast.Attribute)
+              and v.body.attr == "id" and is_sec(v.body.value)) or \
+        (isinstance(v, ast.Attribute) and v.attr == "id" and is_sec(v.value))
+    made = lambda e: True if isinstance(e, ast.Name) and e.id == var else None
+    reached = cfg.exit.id not in H.reach_assuming(cfg, set(cfg.normal_succ(cn.id)), made,
+                                                  removed={nn.id})
+    ok = val_ok and reached
   run.ob(R4, fn.qualname, "UpdateRecord('_grist_Tables', <new table>, {'rawViewSectionRef': "
          "raw_section.id})", "the new table's record points at its raw section whenever one was "
          "created", ok, fi=fn.fi)
